@@ -770,10 +770,13 @@ func (ps *parser) parseContract() (*Contract, error) {
 			}
 		case "invariant", "decreases":
 			retry := false
+			iter := false
 			if ps.isID("retry") {
 				retry = true
+			} else if ps.isID("iter") {
+				iter = true
 			} else if !ps.isID("loop") {
-				return nil, ps.errf("expected 'loop' or 'retry' after %s", t.text)
+				return nil, ps.errf("expected 'loop', 'retry' or 'iter' after %s", t.text)
 			}
 			ps.next()
 			nt := ps.next()
@@ -793,6 +796,9 @@ func (ps *parser) parseContract() (*Contract, error) {
 			}
 			if retry {
 				n += 1000 // invariants of the n-th Retry call site share the table with loop invariants
+			}
+			if iter {
+				n += 2000 // invariants of the n-th `range walk.Plan` loop
 			}
 			if t.text == "invariant" {
 				c.Invs[n] = append(c.Invs[n], Clause{Label: lab, Expr: e, Line: line})
